@@ -352,6 +352,52 @@ pub fn run(ctx: &Ctx, rep: &mut Report) {
             log.push((l, false));
         }
     }
+    // (d) long bodies: the checksummed region extends to the first '*' however far away it is.
+    // The length sits in the channel field (kept by no build, so the no-allocator build takes
+    // these lines too), in a tag-less payload (std / alloc) or in front of the body (tag block).
+    // Transmitted value: the XOR of the whole body, the XOR of a prefix of 2^k - 1 / 2^k bytes
+    // (what a bounded scan would compute), or one bit off.
+    {
+        let mut item = 0u64;
+        let mut lens: Vec<usize> = vec![255, 256, 257, 4095, 4096, 4097, 65_534, 65_535, 65_536, 65_537, 131_072];
+        if ctx.thorough() {
+            lens.extend_from_slice(&[16_383, 16_384, 32_767, 32_768, 32_769, 262_143, 262_144, 262_145, 1_048_577]);
+        }
+        for &len in &lens {
+            for place in 0..3u8 {
+                if !ctx.mine(item) {
+                    item += 1;
+                    continue;
+                }
+                item += 1;
+                if place == 1 && mon::is_noalloc() {
+                    continue;
+                }
+                let filler: Vec<u8> = (0..len).map(|_| *r.pick(crate::armor::ALPHABET)).collect();
+                let mut b = Build::simple(1, 1, None, b"A", b"15RTgt0PAso;90TKcjM8h6g208CQ", 0);
+                match place {
+                    0 => b.chan = filler,
+                    1 => b.payload = filler,
+                    _ => b.tag = Some(filler),
+                }
+                let body = b.body();
+                let whole = nmea_ref::xor(&body);
+                let mut txs: Vec<u8> = vec![whole, whole ^ 0x01, whole ^ 0x80];
+                let mut k = 128usize;
+                while k <= body.len() {
+                    txs.push(nmea_ref::xor(&body[..k - 1]));
+                    txs.push(nmea_ref::xor(&body[..k]));
+                    k *= 2;
+                }
+                for tx in txs {
+                    b.cks = Some(tx);
+                    let mut p = Parser::new();
+                    let shape = ["long-channel", "long-payload", "long-tag-block"][place as usize];
+                    judge_line(rep, &mut p, &[], &b.line(), false, shape, "fresh", if len >= 65_535 { "body>=64KiB" } else { "body<64KiB" });
+                }
+            }
+        }
+    }
     rep.require("match");
     rep.require("mismatch");
     rep.require("reject");
